@@ -21,7 +21,9 @@ open AdaptaVerif.Model.Lifecycle AdaptaVerif.Spec.Lifecycle
 @[simp] theorem cons_releasePin (s : St) (p : Id) : (s.releasePin p).consolidate = s.consolidate := rfl
 @[simp] theorem cons_freeObstacle (s : St) (o : Id) : (s.freeObstacle o).consolidate = s.consolidate := rfl
 @[simp] theorem cons_freeConn (s : St) (c : Id) : (s.freeConn c).consolidate = s.consolidate := rfl
-@[simp] theorem cons_addCluster (s : St) (k : Id) : (s.addCluster k).consolidate = s.consolidate := rfl
+@[simp] theorem cons_addCluster (s : St) (k : Id) (r : List Id) : (s.addCluster k r).consolidate = s.consolidate := rfl
+@[simp] theorem cons_setClusterRefs (s : St) (k : Id) (r : List Id) : (s.setClusterRefs k r).consolidate = s.consolidate := rfl
+@[simp] theorem cons_routeClusters (s : St) : s.routeClusters.consolidate = s.consolidate := rfl
 @[simp] theorem cons_freeCluster (s : St) (k : Id) : (s.freeCluster k).consolidate = s.consolidate := rfl
 @[simp] theorem cons_reroute (s : St) : (reroute s).consolidate = s.consolidate := rfl
 @[simp] theorem cons_setCheckpoints (s : St) (c : Id) (vs : List Id) :
@@ -384,7 +386,7 @@ theorem nd_step {s : St} (h : NoDanglingAction s) (op : Op) (hl : LegalDoc s op 
     split
     · exact nd_addFault h _
     · apply nd_of_nil
-      simp [St.removeFromQueue, St.freeObstacle, hl.2]
+      simp [St.removeFromQueue, St.freeObstacle, hl.1.2]
   | rNewJunction id pin => exact nd_addPin (nd_addObst h _ _ _) _ _ _
   | rNewConn id => exact nd_addConn h _ _
   | newCluster id => exact nd_clusters h rfl rfl rfl
@@ -393,11 +395,11 @@ theorem nd_step {s : St} (h : NoDanglingAction s) (op : Op) (hl : LegalDoc s op 
     split
     · exact nd_addFault h _
     · exact nd_clusters h rfl rfl rfl
-  | setClusterPoly id =>
+  | setClusterPoly id refs =>
     dsimp only
     split
     · exact nd_addFault h _
-    · exact h
+    · exact nd_clusters h rfl rfl rfl
   | touchConn c =>
     dsimp only
     split
@@ -589,7 +591,9 @@ theorem legalFrom_append (L : St → Op → Bool) (s : St) (h : List Op) (op : O
 @[simp] theorem alive_releasePin (s : St) (p : Id) : (s.releasePin p).alive = s.alive := rfl
 @[simp] theorem alive_freeObstacle (s : St) (o : Id) : (s.freeObstacle o).alive = s.alive := rfl
 @[simp] theorem alive_freeConn (s : St) (c : Id) : (s.freeConn c).alive = s.alive := rfl
-@[simp] theorem alive_addCluster (s : St) (k : Id) : (s.addCluster k).alive = s.alive := rfl
+@[simp] theorem alive_addCluster (s : St) (k : Id) (r : List Id) : (s.addCluster k r).alive = s.alive := rfl
+@[simp] theorem alive_setClusterRefs (s : St) (k : Id) (r : List Id) : (s.setClusterRefs k r).alive = s.alive := rfl
+@[simp] theorem alive_routeClusters (s : St) : s.routeClusters.alive = s.alive := rfl
 @[simp] theorem alive_freeCluster (s : St) (k : Id) : (s.freeCluster k).alive = s.alive := rfl
 @[simp] theorem alive_reroute (s : St) : (reroute s).alive = s.alive := rfl
 @[simp] theorem alive_setCheckpoints (s : St) (c : Id) (vs : List Id) :
